@@ -195,10 +195,13 @@ def main(argv_tier=None, replay_path=None):
     gl = growth.lost_echo(fx, tr)
     for o in ga["observations"] + gl["observations"]:
         print("OBSERVATION (outside the listed properties) %s" % o)
-    from common import apalache_inductive
+    from common import apalache_inductive, tlaps_prove
     apa = apalache_inductive("APA_ClientSM", "CInit", "CNext", "IndInit", "IndInv")
+    tlaps = tlaps_prove("ClientSM_proofs")
+    ga["tlaps_proof"] = tlaps_prove("AliasSM_proofs")
     cov = {
         "apalache_inductive_invariant": apa,
+        "tlaps_proof": tlaps,
         "growth": {"alias_registry": ga, "client_impl_lost_echo": gl},
         "states": r.distinct, "transitions": r.generated,
         "traces_validated_against_impl": len(traces), "trace_validation_states": agg["distinct"],
